@@ -9,7 +9,7 @@ PY = '/venv/bin/python'
 CHECKS = {
     'C01': dict(
         technique='explicit-state BFS over real SimulatedBroker histories vs exact Fraction ledger',
-        text='Explicit-state BFS over every history of account/portfolio transfers (incl. sub-cent amounts and the quoted rounded balance), portfolio creation, order submission, clock updates and quote changes up to the stated depth, from four initial states (empty, funded, long, short with negative cash) under several fee models (zero, percentage, sub-half-cent commissions) and base currencies (USD, GBP, EUR), executed on the real broker with every intermediate state read back; after every transition master/portfolio cash, the balances of the other currencies, account totals, the event history (cents rule), history_to_df and global conservation are compared with an exact Fraction ledger. Plus every cycle of <= 2 events repeated 40-400 times (count-dependent behaviour). Plus ledgers of more than 10 000 (thorough: 25 000) entries with amounts that are not whole cents. Orders reusing a user-chosen id are part of the alphabet; accounts with 5-40 portfolios are checked. The cent-rounded (quoted) cash of a portfolio withdrawn back to the master is an event too.',
+        text='Explicit-state BFS over every history of account/portfolio transfers (incl. sub-cent amounts and the quoted rounded balance), portfolio creation, order submission, clock updates and quote changes up to the stated depth, from four initial states (empty, funded, long, short with negative cash) under several fee models (zero, percentage, sub-half-cent commissions) and base currencies (USD, GBP, EUR), executed on the real broker with every intermediate state read back; after every transition master/portfolio cash, the balances of the other currencies, account totals, the event history (cents rule), history_to_df and global conservation are compared with an exact Fraction ledger. Plus every cycle of <= 2 events repeated 40-400 times (count-dependent behaviour). Plus ledgers of more than 10 000 (thorough: 25 000) entries with amounts that are not whole cents. Orders reusing a user-chosen id are part of the alphabet; accounts with 5-40 portfolios are checked. The cent-rounded (quoted) cash of a portfolio withdrawn back to the master is an event too. So is a fill handed to the portfolio directly which the position refuses (it carries a commission; nothing may move).',
         note='Trusted: the harness ledger (Fractions), the stub data handler, the recorder wrapped around Portfolio.transact_asset. Values outside the alphabet are not covered.',
         design='5/C01'),
     'C02': dict(
@@ -99,7 +99,7 @@ CHECKS = {
         design='5/C09'),
     'C18': dict(
         technique='stateless choice-sequence (deviation-bounded) exploration of set-iteration order and order-id rank + hash-seed subprocesses + shared-source histories',
-        text='(1) ChoiceSet injected as set/frozenset into all qstrader modules and uuid4 replaced by a rank-choosing seam: every execution with <= 2 deviations must give one digest; (2) fresh interpreters under hash seeds realising all 6 orders of the witness set; (3) process histories: ordered pairs of configurations on the same memoised source, another market first, the same directory rewritten, the same universe object twice, a burst of queries - each compared with the digest from a pristine process. Configurations include a late-data market and two data sources. Process histories also include 10^k - {0..3} orders created earlier in the process (k up to 6). Configurations over the same dates written from 00:00 and with the end as a plain day.',
+        text='(1) ChoiceSet injected as set/frozenset into all qstrader modules and uuid4 replaced by a rank-choosing seam: every execution with <= 2 deviations must give one digest; (2) fresh interpreters under hash seeds realising all 6 orders of the witness set; (3) process histories: ordered pairs of configurations on the same memoised source, another market first, the same directory rewritten, the same universe object twice, a burst of queries - each compared with the digest from a pristine process. Configurations include a late-data market and two data sources. Process histories also include 10^k - {0..3} orders created earlier in the process (k up to 6). Configurations over the same dates written from 00:00 and with the end as a plain day. A knife-edge configuration (weights 0.1/0.2/0.3 whose float sum depends on the order of addition, round prices, round account) is part of every run.',
         note='Set literals/comprehensions cannot be intercepted in-process (covered by the hash-seed runs only). Digest = fills without order ids, equity curve, target allocations with key order.',
         design='5/C18'),
 }
